@@ -1,8 +1,9 @@
 SPECIFICATION SpecLD
 CONSTANTS
-  NKeys = 2
+  NKeys = 1
+  Mut = "none"
   Policy = "ld"
-  Subs = {1, 2}
+  Subs = {1}
   VIds = {2}
   Times = {0, 1, 2, 3}
   Durs = {1, 2}
